@@ -637,7 +637,7 @@ def run(ctx):
             report(ctx, case, verdict, details, impl, top, ri, {"n": 99})
         return
     run_behaviours(ctx)
-    cases = make_cases(ctx, ctx.n(50, 500))
+    cases = make_cases(ctx, ctx.n(50, 300))
     ctx.log("%d wrapper programs; oracle" % len(cases))
     ref_inner = so.oracle_eval(ctx, [toplevel_prog(c[0], "sq3" if c[1] == "sq3" else "sq2") for c in cases], "fast", jobs=8)
     outer_idx = [i for i, c in enumerate(cases) if c[1] == "sq2_outer"]
@@ -681,7 +681,7 @@ def run(ctx):
             report(ctx, case, verdict, details, impl, top, ri, state)
         # model tie on small instances: Sem.prob_gen enumerates every ground AD instance
         ninst = max([len(prog.constants() or ["a"]) ** len(goal_vars(g)) for g in goals] or [1])
-        small = nc[0] == "nch" and ninst * 2 ** nc[1][1] <= 1024 and len(tie) < ctx.n(400, 1500)
+        small = nc[0] == "nch" and ninst * 2 ** nc[1][1] <= 1024 and len(tie) < ctx.n(400, 1000)
         outer_bad = kind == "sq2_outer" and ref_outer[i][0] == "err"
         if small and verdict in ("agree", "violation") and not outer_bad and (impl[0] == "ok" or impl[1] == "InconsistentEvidence"):
             for gi in range(len(goals)):
